@@ -4,15 +4,30 @@ P = dict(
     memcheck_stride=dict(quick=100, thorough=40),
     level='exploration',
     technique='runtime monitoring: shadow interval map of handed-out buffers with per-buffer fill patterns, size-class model from the statement, exactly-once ledger in a recording underlying TestMemoryAllocator (returned blocks poisoned and held), output capture for the one-time warning, ASan/UBSan build; '
-              'SimpleStringInternalCache driven directly, through SimpleStringCacheAllocator, and as GlobalSimpleStringCache under real SimpleString traffic',
+              'SimpleStringInternalCache driven directly, through SimpleStringCacheAllocator, and as GlobalSimpleStringCache under real SimpleString traffic; '
+              'long-list histories (10^4..5*10^4 buffers on one list) whose list-length dependent operations (clearCache, clearAll, destruction, ~GlobalSimpleStringCache, '
+              'releases from the interior of the long list) run on a thread with a 128 KB stack and a guard region: a fault in the guard region is recorded as '
+              'stack-exhausted:<operation>:<list> (the crash the statement excludes, scaled down from the 10^5..10^6 buffers it takes on an 8 MB stack); '
+              'the deepest frame seen from the underlying allocator is recorded (unchanged code: below 4 KB whatever the length)',
     rule='cases: generated histories of 10..300 (thorough: ..600) alloc/dealloc/clearCache/clearAll operations with sizes on and around 0/32/64/96/128/256/1024, releases in arbitrary order with the true size, another size of the same class, '
          'a size of another class, of foreign heap/static/stack/interior pointers and repeated releases; every request size 0..1100 in a fixed history shape and every (true size, release size) pair inside one cached class are enumerated completely; '
-         'GlobalSimpleStringCache lifetimes with SimpleString construction/copy/assign/append/substring/format/destroy traffic. '
+         'GlobalSimpleStringCache lifetimes with SimpleString construction/copy/assign/append/substring/format/destroy traffic; '
+         'long-list histories: list kind (used list of a class | free list of a class | uncached list | all three) x interface (cache | SimpleStringCacheAllocator | '
+         'GlobalSimpleStringCache::getAllocator) x clearing operation in the middle (none | clearCache | clearAll) enumerated by the case index, 10000..20000 (thorough: ..50000) '
+         'buffers on the long list, 0..5 releases from its interior, noise allocations, then release-all/clearCache/clearAll/destroy or clearAll/destroy or ~GlobalSimpleStringCache. '
          'Non-trivial = a history that releases a non-head block of a used list and later allocates again in the same size class; distinct by the operation sequence',
     floor=dict(quick=40000, thorough=350000),
     counter_floor=dict(
-        quick={'release_interior_class_32': 5000, 'release_interior_class_256': 5000, 'alloc_reused': 50000, 'unknown_release_first': 2000, 'unknown_release_after_warning': 5000, 'op_clearCache': 5000, 'op_clearAll': 10000, 'global_cache_lifetimes': 8000},
-        thorough={'release_interior_class_32': 100000, 'release_interior_class_256': 100000, 'alloc_reused': 1000000, 'unknown_release_first': 40000, 'unknown_release_after_warning': 100000, 'op_clearCache': 100000, 'op_clearAll': 200000, 'global_cache_lifetimes': 100000},
+        quick={'release_interior_class_32': 5000, 'release_interior_class_256': 5000, 'alloc_reused': 50000, 'unknown_release_first': 2000, 'unknown_release_after_warning': 5000, 'op_clearCache': 5000, 'op_clearAll': 10000, 'global_cache_lifetimes': 8000,
+               'long_list_histories': 90, 'small_stack_clearCache_with_free_list_of_10000_or_more': 4, 'small_stack_clearAll_with_free_list_of_10000_or_more': 3,
+               'small_stack_clearAll_with_used_list_of_10000_or_more': 20, 'small_stack_clearAll_with_uncached_list_of_10000_or_more': 10,
+               'small_stack_global_destroy_with_used_list_of_10000_or_more': 10, 'small_stack_global_destroy_with_free_list_of_10000_or_more': 5,
+               'small_stack_global_destroy_with_uncached_list_of_10000_or_more': 5, 'small_stack_release_with_used_list_of_10000_or_more': 50},
+        thorough={'release_interior_class_32': 100000, 'release_interior_class_256': 100000, 'alloc_reused': 1000000, 'unknown_release_first': 40000, 'unknown_release_after_warning': 100000, 'op_clearCache': 100000, 'op_clearAll': 200000, 'global_cache_lifetimes': 100000,
+                  'long_list_histories': 700, 'small_stack_clearCache_with_free_list_of_10000_or_more': 30, 'small_stack_clearAll_with_free_list_of_10000_or_more': 30,
+                  'small_stack_clearAll_with_used_list_of_10000_or_more': 200, 'small_stack_clearAll_with_uncached_list_of_10000_or_more': 100,
+                  'small_stack_global_destroy_with_used_list_of_10000_or_more': 100, 'small_stack_global_destroy_with_free_list_of_10000_or_more': 50,
+                  'small_stack_global_destroy_with_uncached_list_of_10000_or_more': 50, 'small_stack_release_with_used_list_of_10000_or_more': 500},
     ),
     max_resumes=6,      # a mutant that corrupts a list kills (or spins) almost every case: six deaths per process are enough evidence
     stall_s=120, confirm_s=40,   # a spinning cache is normally ended by the harness itself (5 s CPU budget per case, key no-termination:*)
@@ -20,6 +35,10 @@ P = dict(
         'foreign pointers handed to dealloc point to NUL-terminated memory (the cache prints them with %s)',
         'a live buffer released with a size of another class, an uncached buffer released with another size, and a second release of a released buffer are caller errors outside the quantifier: executed for memory safety and list integrity, warning allowed but not demanded, the buffer is never touched again',
         'the ledger is per pointer: clearAllIncludingCurrentlyUsedMemory returns uncached blocks with size 0 (observed, counted, not judged)',
+        'stack use is judged by scaling: an operation that dies on a 128 KB thread stack with 10000..50000 buffers on one list uses stack in proportion to the list length and dies the same way on the '
+        'default 8 MB stack with 64 times as many; the unchanged operations need less than 4 KB there (measured, counters small_stack_peak_depth_*), so the small stack itself cannot cause an alarm. '
+        'Only a fault inside the guard region below that stack is keyed stack-exhausted:*; any other fault is handed back to the sanitizer',
+        'the harness runs with cpputest\'s leak-detecting operator new/delete switched off (turnOffNewDeleteOverloads): its own containers would otherwise be tracked by the global detector; the string cache does not use it',
         'destruction is judged on GlobalSimpleStringCache and on SimpleStringInternalCache after clearAll; destroying a SimpleStringInternalCache that still holds blocks is only counted unless C18_DESTROY_STRICT is set',
     ],
 )
